@@ -76,26 +76,9 @@ Definition analysis_order (p : project) (order : list key) : Prop :=
 (* the most permissive options (nothing filtered by level or id) *)
 Definition bottom (o : opts) : opts := mkOpts Info [] (o_verbose o) (o_sarif o).
 
-(* ---- C02: how each failure class of the property text shows up ------------ *)
-
-Inductive failure_class :=
-| MissingFile | UnreadableFile | BadPragma | SeveralMains            (* parse stage, no location *)
-| SyntaxError | InvalidTupleOrAnonymous | DuplicateDefinition       (* parse stage, located in a file *)
-| DuplicateParameter | LiftFailure.                                  (* CFG / SSA generation of a definition *)
+(* ---- C02 ------------------------------------------------------------------ *)
+(* The failure classes of the property text and the events by which they occur
+   are in Spec.NoSilentSpec (stated on the inputs of Model.Includes and of this
+   model, not on the report collection). *)
 
 Definition is_error (r : report) : Prop := r_level r = Error.
-
-(* report r is the error by which failure class c manifests itself in the
-   ground truth of project p (observed for the real stages by the injection
-   matrix of lib/props/C02.py) *)
-Definition manifests (p : project) (c : failure_class) (r : report) : Prop :=
-  is_error r /\
-  match c with
-  | MissingFile | UnreadableFile | BadPragma | SeveralMains =>
-      In r (p_parse p) /\ r_pfiles r = []
-  | SyntaxError | InvalidTupleOrAnonymous | DuplicateDefinition =>
-      In r (p_parse p) /\ exists f, In f (r_pfiles r) /\ In f (p_user p)
-  | DuplicateParameter | LiftFailure =>
-      exists d, In d (user_defs p) /\ d_err d = Some r /\
-                (r_pfiles r = [] \/ exists f, In f (r_pfiles r) /\ In f (p_user p))
-  end.
